@@ -381,7 +381,7 @@ PROPS = {
              "specification itself has no duplicates, no inlined callees and depends only on the class block. "
              "Mapper and cache of the implementation are compared with the extracted Sparams.",
              "grammar mappings (inline groups, overloads, repeated entries across classes, empty argument lists) x all "
-             "(class, method, params) triples of the file plus unknown values; non-trivial = non-empty answer",
+             "(class, method, params) triples of the file plus unknown values; typed traces built from constructors with parameter frames next to their overloads (YA); non-trivial = non-empty answer",
              "mapper side and cache side proved at full strength"),
     "C04": P(["C04_class_mapper", "C04_method_mapper", "C04_class_cache", "C04_method_cache", "C04_consistent", "C04_file_independent"],
              "Theorems: class lookup = original name of the last class line with exactly that obfuscated name, else "
@@ -389,7 +389,7 @@ PROPS = {
              "method name. Mapper and cache are compared with the extracted Sclass/Smethod.",
              "grammar mappings, every 10th with up to 150 classes over adversarially similar names (prefixes, $ and . "
              "variants, non-ASCII, duplicates) x every name in the file, sort neighbours, unknown names; "
-             "non-trivial = lookup succeeds",
+             "mappers built through From<(&str, bool)> as well; non-trivial = lookup succeeds",
              "mapper side and cache side proved at full strength"),
     "C05": P(["C05_line_roundtrip", "C05_line_in_file", "C05_missing_class_colon", "C05_unspaced_arrow",
               "C05_wrong_indentation", "C05_start_without_end", "C05_missing_return_type", "C05_file_records", "C05_file_last_unterminated"],
@@ -426,7 +426,7 @@ PROPS = {
              "result equals the text API's output. Mapper and cache are compared with the model, and the property's own "
              "clauses are evaluated on the implementation's answers.",
              "representable mappings x canonical traces (depth 0..4, mapped/unmapped throwables with/without message, "
-             "mapped/unmapped frames); non-trivial = typed output differs from the input print",
+             "mapped/unmapped frames); typed traces built through the constructors with frames by parameters and repeated call sites (YA: node-wise clause on the implementation); non-trivial = typed output differs from the input print",
              "all clauses proved"),
     "C11": P(["C11_prefix_rejected", "C11_magic_flipped", "C11_magic_other", "C11_version_other",
               "C11_accepted_iff_long_enough", "C11_short_buffer", "C11_roundtrip"],
@@ -436,7 +436,7 @@ PROPS = {
              "The implementation's ProguardCache::parse is compared with the model on every prefix and header edit.",
              "generated cache files (quick: <= 2 KB) x every prefix length x every single-field header edit (0, +-1, "
              "+1000, 2^31, 2^32-1, byte-swapped); oracle on the implementation = the property's disjunction (rejected, or "
-             "answers as the full file), error kinds compared with the model; non-trivial = buffer rejected with a kind",
+             "answers as the full file), error kinds compared with the model; every buffer additionally parsed at the seven other addresses modulo 8; non-trivial = buffer rejected with a kind",
              "all clauses proved (model theorem is the stronger 'every strict prefix is rejected')",
              assumptions=["buffers are 8-aligned (the harness always passes aligned buffers)"]),
     "C16": P(["C16_valid_descriptor", "C16_formatted", "C16_invalid_no_open_paren", "C16_invalid_no_close_paren",
@@ -494,7 +494,7 @@ PROPS = {
              "checks and compared with the model answer by answer.",
              "valid caches with any 32-bit field set to boundary values, swapped / duplicated records, bit flips, damaged "
              "length prefixes and UTF-8, random bodies behind a valid header x class / method / line (incl. 0 and "
-             "2^64-1) / params / text / signature queries; non-trivial = buffer accepted and query answered",
+             "2^64-1) / params / text / signature queries; every buffer additionally parsed at the seven other addresses modulo 8 (panic clause); descriptors with 3000 and 200000 dimensions / parameters; non-trivial = buffer accepted and query answered",
              "all clauses proved; memory safety of watto's unsafe casts on aligned buffers is assumed",
              assumptions=["buffers are 8-aligned", "watto's Pod casts are sound (unsafe code not modelled)"]),
     "C13": P(["C13_mapper_never_panics", "C13_writer_counts_do_not_wrap", "C13_writer_counts_exact", "C13_pipeline_total"],
@@ -547,7 +547,7 @@ PROPS = {
              "against scripted sinks and compared (result kind, accepted bytes, number of calls) with the model; the "
              "property's two implications are also evaluated on the implementation's answer directly.",
              "representable mappings x sinks accepting at most k bytes per call (k = 0..16), short once / zero-length / "
-             "failing / interrupted at call i for every i, and random scripts; non-trivial = limited or scripted sink",
+             "failing / interrupted at call i for every i, and random scripts; gathering sinks (write_vectored) with 1..200 bytes of room per call; non-trivial = limited or scripted sink",
              "all clauses proved"),
     "C18": P(["C18_definition", "C18_namespace", "C18_version_and_variant", "C18_sixteen_bytes"],
              "Partial. Theorems: the identifier is v5(v5(DNS, 'guardsquare.com'), bytes) with namespace "
